@@ -25,9 +25,13 @@ MANIFEST = dict(
               'symbolically); since round 3 the formatter of every written number, the guard of the optional multiblend arrays, an '
               'object-level table (which attributes every written key is computed from / every looked-up key flows into, by data-flow '
               'analysis of the parse methods and constructors) and the displacement flag tables; the block theorem composes the '
-              'string-level theorems with the C01 KeyValues1 tokenizer/parser model; vm_compute correspondence of the '
-              'escape/scanner/rounding/output/fixup/number-group-text models; round-trip search on real VMF objects',
-    text='Theorems in Props/C06.v (53): the tokenizer\'s quoted-string scanner inverts escape_text for every string in both modes; '
+              'string-level theorems with the C01 KeyValues1 tokenizer/parser model; since round 4 the ID managers (which class every '
+              'manager attribute of a VMF gets with and without preserve_ids, the get_id method of each class executed symbolically into a '
+              'decision list over the requested ID), the containment edges of the object graph (which attribute of which class holds child '
+              'objects of which class, from the parse methods), the loops over set-typed attributes in the export methods, and the slot / '
+              'marker / axis tables of 2D viewports; vm_compute correspondence of the '
+              'escape/scanner/rounding/output/fixup/number-group-text/ID-manager/viewport models; round-trip search on real VMF objects',
+    text='Theorems in Props/C06.v (70): the tokenizer\'s quoted-string scanner inverts escape_text for every string in both modes; '
          'every keyvalue line whose interpolations are escaped strings, numbers or plain literals re-reads as its field values (a raw '
          'string field does not); for every generated export program that passes prog_ok, every environment and call depth, the text '
          'written parses -- C01 tokenizer and Keyvalues.parse model -- to exactly the tree of keys, values and child blocks the writer '
@@ -42,15 +46,27 @@ MANIFEST = dict(
          'significant digits for face rotation / output delay / multiblend, exact for integers and flags), and the table is tight; '
          '"x y z" in any bracket pair and "[x y z offset] scale" are taken apart into their number tokens by parse_vec_str / '
          'UVAxis.parse, the plane triple "(a) (b) (c)" into its three parts; reading entity and hidden blocks in file order preserves entity order. '
-         '188 instance obligations (271 obligations in total with theorems, correspondences, translators, ties) are regenerated '
+         'Round 4: a get_id decision list that passes nid_ok hands back every natural number it is asked for, whatever its opaque '
+         'condition (and one that fails it renumbers some natural number: the check is complete), so with preserve_ids every kind of ID '
+         '(entity, solid, face, group, visgroup, node) is kept; for any class table, every well-formed object tree (VMF > Entity > Solid > '
+         'Side, VMF > VisGroup > VisGroup, any depth and width) is given back by parse-after-export when its classes are paired, its child '
+         'attributes are exported and filled, and the field codecs invert -- hence the second export equals the first; membership lines '
+         'written in sorted order do not depend on the iteration order of the set; the planar axis and both coordinates of a 2D viewport '
+         'survive when the coordinates are not marker values; c06_property states all of it over arbitrary generated objects with the '
+         'obligations as visible hypotheses. '
+         '227 instance obligations (315 obligations in total with theorems, correspondences, translators, ties) are regenerated '
          'from vmf.py / math.py and kernel-checked on every run. The search builds maps through the public API (all object kinds, options '
-         'minimal/disp_multiblend/preserve_ids, every tests/*.vmf) and checks text fixed point and field-by-field equality with the '
-         'stated tolerances.',
+         'minimal/disp_multiblend/preserve_ids, ID schemes from 0 / sparse / huge / repeated on the objects or in the parsed text, every '
+         'tests/*.vmf) and checks text fixed point and field-by-field equality with the stated tolerances; every round trip runs under an alarm.',
     note='Partial with respect to the whole-map statement: text -> KeyValues tree is proved for all export methods; tree -> object is '
          'proved per class at the level "which attribute receives which key" (flat: child lists are paired only as exported/parsed '
-         'attributes, there is no recursive Gallina object graph), per array, per output value, per fixup line, per number group; the '
-         'plane triple, allowed_verts, viewport axis selection, ID managers and membership sets are search-only; float(token) is '
-         'outside the token models. Trusted: Coq kernel + vm_compute, translate/c06_vmf.py, c06_prog.py, c06_lite.py (key table '
+         'attributes), per array, per output value, per fixup line, per number group; the recursion over child objects is a theorem '
+         'over an abstract object tree whose hypotheses (pairing, containment edges) are obligations on the generated tables -- the edges '
+         'VMF.cameras / cordons / groups / strata_viewports, whose reader registers the child inside the child\'s constructor, are not '
+         'seen by the translator and stay search-only; that the blocks of the tree model are the blocks of the write programs is not a '
+         'theorem; the allowed_verts array is covered by key pairing and number format only; the reader loops of IDMan.get_id (search for a '
+         'free ID) are one opaque "anything else" outcome; ID 0 without preserve_ids is renumbered by IDMan without updating references '
+         '(noted for C08, excluded from the generator); float(token) is outside the token models. Trusted: Coq kernel + vm_compute, translate/c06_vmf.py, c06_prog.py, c06_lite.py, c06_ids.py (key table '
          'cross-checked against really exported text, number formats against really exported numbers, on every run), the hand tables '
          '(field types, number kinds, required precision per field, class -> methods, ARRAY_ATTRS, ALIAS_ATTRS), the C01 KeyValues1 model '
          '(tied by C01\'s own check), CPython number formatting being correctly rounded and producing no quote/backslash/newline, '
@@ -583,6 +599,24 @@ def corr_viewport(ck: Ck) -> None:
             ck.extra[f'{name}_disagreement'] = repr(cases[bad[0]])
 
 
+def guarded(ck: Ck, name: str, fn: Any, *args: Any) -> None:
+    """A correspondence stage calls the implementation on generated inputs; the exceptions it expects are handled inside.  Anything
+    else (a fault that makes the implementation raise something unexpected, or loop) is a failing input of that stage, reported as a
+    violation with the stage and the error as replay -- not an INTERNAL-ERROR of the check."""
+    import traceback
+    try:
+        with U.time_limit(600):
+            fn(*args)
+    except Exception as e:       # noqa: BLE001
+        tb = traceback.extract_tb(e.__traceback__)
+        where = next((f'{f.filename.rsplit("/", 1)[-1]}:{f.lineno} {f.name}' for f in reversed(tb) if '/srctools/' in f.filename), 'harness')
+        ck.obligation(f'correspondence:{name}', False, f'stage raised {type(e).__name__}: {e}')
+        ck.tie_broken.append(f'correspondence stage {name} raised {type(e).__name__}')
+        ck.violation(f'stage-error:{name}:{U.err_class(e)}', f'the implementation raised {type(e).__name__}: {e} (at {where}) on an input of the '
+                     f'correspondence stage {name}', {'stage': name, 'error': repr(e), 'where': where, 'seed': ck.seed})
+        ck.explain(f'correspondence:{name}')
+
+
 def rich_spec(seed: int = 7) -> dict:
     """A fixed specification that contains every kind of object (used to validate the translator's tables)."""
     rng = random.Random(seed)
@@ -1006,14 +1040,26 @@ def search(ck: Ck) -> None:
     files = sorted(glob.glob(str(REPO / 'tests' / '**' / '*.vmf'), recursive=True))
     for f in files:
         for pres in (True, False):
-            with open(f, encoding='cp1251') as fh:
-                kv = Keyvalues.parse(fh)
-            v = VMF.parse(kv, preserve_ids=pres)
+            rel0 = f[len(str(REPO)) + 1:]
+            try:
+                with U.time_limit(300):
+                    with open(f, encoding='cp1251') as fh:
+                        kv = Keyvalues.parse(fh)
+                    v = VMF.parse(kv, preserve_ids=pres)
+            except Exception as e:       # noqa: BLE001 - a shipped map that no longer parses is a failing input
+                ck.violation('file:parse-error:' + U.err_class(e), f'{rel0}: VMF.parse(preserve_ids={pres}) raised {type(e).__name__}: {e}',
+                             {'file': rel0, 'opts': {'preserve_ids': pres}})
+                continue
             for opts in ({'preserve_ids': pres}, {'preserve_ids': pres, 'minimal': True, 'disp_multiblend': False}):
                 ck.count('shipped_vmf_round_trips')
                 rel = f[len(str(REPO)) + 1:]
                 ck.seen(('file', rel, pres, bool(opts.get('minimal'))))
-                for key, what, det in U.check_vmf(v, opts):
+                try:
+                    with U.time_limit(300):
+                        res = U.check_vmf(v, opts)
+                except U.Timeout as e:
+                    res = [('hang:round-trip', f'export / parse did not finish: {e}', {})]
+                for key, what, det in res:
                     ck.violation('file:' + key, f'{rel}: {what}', {'file': rel, 'opts': opts, 'detail': det})
     ck.extra['shipped_vmf_files'] = [f[len(str(REPO)) + 1:] for f in files]
     for i in range(n):
@@ -1044,6 +1090,10 @@ def run(ck: Ck) -> None:
                'Number-group texts (Vec/Angle/UVAxis/plane triple): tokens from a pool of pairwise different numbers, brackets of all four '
                'kinds, doubled and mismatched brackets, extra white space, 1..6 tokens, 2..4 plane groups (non-trivial = has a bracket; every '
                'UVAxis and plane text counts). '
+               'ID schemes (45 % of the maps; per kind entity/solid/face/group/visgroup/node: start 0, 1, 2, 17, 10^6, 2^31-1, 2^32, step 1..1000, '
+               'optionally wrapping so that numbers repeat -- only with preserve_ids, never for groups, which are keyed by ID) applied to the built '
+               'objects or to the exported text that is then parsed. ID-manager requests: -1, negatives, 0, used and free small numbers, huge numbers, '
+               'repetitions, on instances that already hold 1..39. Viewport vectors: coordinates from 0, +-65536 and ordinary integers. '
                'Shipped files: every tests/**/*.vmf x preserve_ids x minimal.')
     ck.trusted.append('hand tables in translate/c06_vmf.py (field types, call graph of export methods, parse roots, vertex arity), '
                       'validated on real objects / really exported text on every run')
@@ -1053,6 +1103,9 @@ def run(ck: Ck) -> None:
                       '(tied by differential correspondence and by the generated separators / field order)')
     ck.trusted.append('translate/c06_lite.py: data-flow analysis of the parse methods and constructors (object-level table), hand tables CLASSES, '
                       'ARRAY_ATTRS, ALIAS_ATTRS; the hand table of the precision class each written number must keep (REQUIRED_* in checks/c06.py)')
+    ck.trusted.append('translate/c06_ids.py: symbolic execution of get_id / VMF.__init__, scan for get_id call sites, for loops over set-typed '
+                      'attributes (set-typed = annotated set[...] or assigned set(...)), for the position templates / marker tiers of 2D viewports; '
+                      'the hand model of the reader loop of Strata2DViewport.from_vector (vp_choose; tied by correspondence)')
     ck.trusted.append('the C01 KeyValues1 tokenizer/parser model rocq/KV/* (imported read-only; tied to keyvalues.py/tokenizer.py by check C01)')
     ck.assumptions += [
         'CPython float formatting (%.6f, %g, repr) is correctly rounded and its output contains only digits, sign, point, exponent, '
@@ -1060,6 +1113,9 @@ def run(ck: Ck) -> None:
         'float(text) returns the double nearest to the decimal text (re-reading adds at most half an ulp to the bounds of family 4)',
         'text -> tree is proved for every export program; the tree -> object half for whole objects is informal (per block / per field '
         'families) and covered by the search',
+        'IDs a map can carry are natural numbers: -1 is the API\'s "no ID", Entity.parse takes an id key as the ID only when it is all digits; '
+        'without preserve_ids IDs are positive and unique (IDMan; 0 would be renumbered without updating references -- C08\'s subject)',
+        'a Python set iterates over its elements in some duplicate-free order (model: any NoDup list); sorted() is a function of the multiset',
         'str.split, str.join, int() on digit strings and str.casefold behave as modelled (split_on, join, parse_digits; casefold enters '
         'the theorems as the section variables is_inst / same_var)',
     ]
@@ -1169,13 +1225,13 @@ def run(ck: Ck) -> None:
                       f'{sorted(s1 ^ s2)[:4]}')
         if s1 != s2:
             ck.tie_broken.append('program translator and template translator disagree on the written lines')
-        corr_escape(ck)
-        corr_rounding(ck)
-        corr_output_fixup(ck)
-        corr_tokens(ck)
-        corr_plane(ck)
-        corr_ids(ck, tr.get('VmfIds_gen', {}))
-        corr_viewport(ck)
+        guarded(ck, 'escape_scanner', corr_escape, ck)
+        guarded(ck, 'rounding', corr_rounding, ck)
+        guarded(ck, 'output_fixup', corr_output_fixup, ck)
+        guarded(ck, 'number_group_text', corr_tokens, ck)
+        guarded(ck, 'plane_text', corr_plane, ck)
+        guarded(ck, 'id_manager_programs', corr_ids, ck, tr.get('VmfIds_gen', {}))
+        guarded(ck, 'viewport_axis', corr_viewport, ck)
         try:
             validate_tables(ck, tr.get('VmfTemplates_gen', {}), tr.get('VmfKeys_gen', {}))
         except Exception as e:     # the rich map itself may fail to export when the source is broken: the search reports that
@@ -1240,7 +1296,7 @@ def run(ck: Ck) -> None:
     if any(k.endswith((':visgroupid', ':groupid', 'groupid|visgroupid', 'visgroupid|groupid')) or 'visgroupid' in k or 'groupid' in k for k in keys):
         ck.explain('instance:membership_lines_in_canonical_order')
         ck.explain('instance:membership_loops_found')
-    if any('viewport' in k or 'views' in k or '2D view' in k for k in keys):
+    if any('viewport' in k or 'views' in k or 'D view p' in k or 'D_view_p' in k for k in keys):
         ck.explain('instance:viewport_axis_tables_agree')
         ck.explain('correspondence:viewport_axis')
         ck.explain('translate:VmfViewport_gen')
@@ -1248,6 +1304,12 @@ def run(ck: Ck) -> None:
         ck.explain('instance:entity_blocks_read_in_file_order')
     if any('fixups' in k or 'replaceN' in k for k in keys):
         ck.explain('instance:fixup_index_written_2_read_2')
+    # the composite obligation (hypotheses of c06_property) is explained when every failed component of it is
+    comp = ('instance:program_ok:', 'instance:programs_all_ok', 'instance:kv_parser_sites_ok', 'instance:fields_paired:',
+            'instance:ids_preserved_when_asked:', 'instance:membership_lines_in_canonical_order:', 'instance:viewport_axis_tables_agree')
+    failed = [o for o in ck.obligations if not o['ok'] and o['name'].startswith(comp)]
+    if failed and all(o.get('explained') for o in failed):
+        ck.explain('instance:property_hypotheses_hold_for_todays_source')
 
 
 def replay(data: dict) -> int:
@@ -1259,6 +1321,15 @@ def replay(data: dict) -> int:
             print('->', key, '|', what[:400])
         if not res:
             print('-> no violation on this tree')
+        return 0
+    if isinstance(r, dict) and 'manager' in r:
+        from srctools.vmf import VMF
+        got = getattr(VMF(preserve_ids=True), r['manager']).get_id(r['desired'])
+        print(f"VMF(preserve_ids=True).{r['manager']}.get_id({r['desired']}) -> {got!r}" + ('' if got == r['desired'] else '   (not preserved)'))
+        return 0
+    if isinstance(r, dict) and 'class' in r and 'desired' in r:
+        from srctools import vmf as V
+        print(f"{r['class']}(range(1, 40)).get_id({r['desired']}) ->", getattr(V, r['class'])(range(1, 40)).get_id(r['desired']))
         return 0
     if isinstance(r, dict) and 'file' in r:
         from srctools.keyvalues import Keyvalues
